@@ -988,8 +988,18 @@ def r_ret(ctx):
     f = ctx.p.func('dsw.spiderweb.repair_dna')
     vt = ('v', 'vt_check', 'P')
 
+    unclear = []
+
+    def chk(how, role_, line, bad, **kw):
+        if not how and unclear:
+            run.undecided('R-RET', f, role_, line, 'a comparison with %s is on the path, but its arguments are not in a form this rule '
+                          'equates with the candidate and len(vt_check)' % unclear[-1])
+        else:
+            run.check(bool(how), 'R-RET', f, role_, line, how or '', bad, **kw)
+
     def passes_check(nd, value, extra=()):
         """conds at nd imply: vt_check is None, or vt_check == set_vt(value, len(vt_check))"""
+        del unclear[:]
         def one(atom, pol):
             if atom[0] == 'cmp' and atom[1] == 'is' and atom[2] == vt and atom[3] == ('c', None) and pol:
                 return 'no check supplied on this path'
@@ -998,9 +1008,24 @@ def r_ret(ctx):
             if atom[0] == 'cmp' and ((atom[1] == '==' and pol) or (atom[1] == '!=' and not pol)):
                 for a, b in ((atom[2], atom[3]), (atom[3], atom[2])):
                     if a == vt and call_name(b) and call_name(b).endswith('.set_vt'):
-                        if call_arg(b, 0, 'dna_sequence') == value and \
-                                call_arg(b, 1, 'vt_length') == ('call', ('g', 'builtins.len'), (vt,), ()):
+                        LEN = ('call', ('g', 'builtins.len'), (vt,), ())
+                        la = call_arg(b, 1, 'vt_length')
+                        if la is not None and la != LEN:
+                            la = ctx.simplify_under(f, la, nd, extra)
+                        if la != LEN and la is not None:
+                            # a length taken once before the loop (len(vt_check) if vt_check is not None else None)
+                            fa = ctx.feasible_alternatives(f, la, nd, extra)
+                            if fa and all(t_ == LEN for _d, t_ in fa):
+                                la = LEN
+                        da = call_arg(b, 0, 'dna_sequence')
+                        if da == value and la == LEN:
                             return 'check comparison holds for this value'
+                        # a comparison is there, with arguments this rule cannot equate with the value / the check length: a clear
+                        # mismatch (the uncorrected strand, a constant length) is a witness, anything else is not decided here
+                        clear = (da != value and da == ('v', 'dna_sequence', 'P') and value != da) or \
+                                (da == value and la is not None and not any(x == vt for x in walk_term(la)))
+                        if not clear:
+                            unclear.append(show(b)[:80])
             return None
         def disj(parts):
             hs = []
@@ -1056,10 +1081,10 @@ def r_ret(ctx):
                 run.ok('R-RET', f, role + ':empty', nd.lineno, 'empty candidate list', nontrivial=False)
             elif len(L) == 2:
                 how = passes_check(nd, L[1])
-                run.check(bool(how), 'R-RET', f, role + ':candidate-check-consistent', nd.lineno, how or '',
-                          'the single candidate %s is returned on a path where a supplied check was not compared with '
-                          'set_vt(candidate, len(vt_check))' % show(L[1])[:60],
-                          inputs='strands with a wrong check and no repair candidates')
+                chk(how, role + ':candidate-check-consistent', nd.lineno,
+                    'the single candidate %s is returned on a path where a supplied check was not compared with '
+                    'set_vt(candidate, len(vt_check))' % show(L[1])[:60],
+                    inputs='strands with a wrong check and no repair candidates')
             else:
                 run.refute('R-RET', f, role + ':sorted', nd.lineno, 'a literal list of %d candidates is returned unsorted' % (len(L) - 1),
                            inputs='every call')
@@ -1148,11 +1173,10 @@ def r_ret(ctx):
                                             how = passes_check(x, val) if val is not None else None
                                             if unchecked_ok and not how:
                                                 how = 'the collection is returned only where no check is supplied'
-                                            run.check(bool(how), 'R-RET', f, 'add#%d:candidate-check-consistent' % state['adds'],
-                                                      x.lineno, how or '',
-                                                      'a candidate is added to the result set on a path where a supplied check was '
-                                                      'not compared with set_vt(candidate, len(vt_check))',
-                                                      inputs='repairs with a check supplied')
+                                            chk(how, 'add#%d:candidate-check-consistent' % state['adds'], x.lineno,
+                                                'a candidate is added to the result set on a path where a supplied check was '
+                                                'not compared with set_vt(candidate, len(vt_check))',
+                                                inputs='repairs with a check supplied')
                                         elif d2.extra.attr not in ('update', 'discard', 'remove'):
                                             run.refute('R-RET', f, 'result-set:%s' % d2.extra.attr, x.lineno,
                                                        'the result set is modified by .%s()' % d2.extra.attr, inputs='every call')
